@@ -98,7 +98,38 @@ type scripted struct {
 	next     int
 	requests int
 	aborted  bool
+	// open counts the response bodies handed out and not yet closed or read to the end;
+	// overlap records a request made while such a body was open: with a transport limited to one
+	// connection per host that request can never be sent (the operation would hang on itself)
+	open    int
+	overlap string
 }
+
+// trackedBody counts as open until it is closed or has reported EOF.
+type trackedBody struct {
+	io.Reader
+	s    *scripted
+	done bool
+}
+
+func (b *trackedBody) release() {
+	b.s.mu.Lock()
+	if !b.done {
+		b.done = true
+		b.s.open--
+	}
+	b.s.mu.Unlock()
+}
+
+func (b *trackedBody) Read(p []byte) (int, error) {
+	n, err := b.Reader.Read(p)
+	if err != nil {
+		b.release()
+	}
+	return n, err
+}
+
+func (b *trackedBody) Close() error { b.release(); return nil }
 
 var errExhausted = errors.New("scripted transport: the server's answers are exhausted")
 
@@ -110,6 +141,9 @@ func (s *scripted) RoundTrip(req *http.Request) (*http.Response, error) {
 	s.mu.Lock()
 	defer s.mu.Unlock()
 	s.requests++
+	if s.open > 0 && s.overlap == "" {
+		s.overlap = req.Method + " " + req.URL.Path
+	}
 	if s.requests > 200 {
 		s.aborted = true
 		return nil, errors.New("scripted transport: watchdog: more than 200 requests in one call")
@@ -136,10 +170,15 @@ func (s *scripted) RoundTrip(req *http.Request) (*http.Response, error) {
 			resp.ContentLength = int64(len(body)) - 1
 		}
 	}
-	if req.Method == "HEAD" {
-		body = nil
+	if req.Method == "HEAD" || r.Status == 204 || r.Status == 304 || r.Status < 200 {
+		body = nil // as net/http delivers them: such responses have no body
 	}
-	resp.Body = io.NopCloser(bytes.NewReader(body))
+	if len(body) == 0 {
+		resp.Body = http.NoBody // (a connection is free again as soon as an empty body has been delivered)
+		return resp, nil
+	}
+	s.open++
+	resp.Body = &trackedBody{Reader: bytes.NewReader(body), s: s}
 	return resp, nil
 }
 
@@ -214,6 +253,13 @@ func run(s Script, v *vt.V) {
 		case <-time.After(10 * time.Second):
 			hung = true
 			v.Failf("no-return", "%s: %s did not return within 10 s after %d requests (it is looping without asking the server anything)", desc, name, tr.count()-before)
+			return false
+		}
+		tr.mu.Lock()
+		overlap := tr.overlap
+		tr.mu.Unlock()
+		if overlap != "" {
+			v.Failf("request-while-holding-body", "%s: %s sent %s while it was still holding the unread body of an earlier response of the same call: with a transport that allows one connection per host (http.Transport{MaxConnsPerHost: 1}) this request waits for a connection that only the call itself can free - it never returns", desc, name, overlap)
 			return false
 		}
 		if used := tr.count() - before; used > budget || tr.aborted {
@@ -452,7 +498,7 @@ func genScript(t *rapid.T) Script {
 var prop = &vt.Prop[Script]{
 	ID:   "C18",
 	Name: "ClientAnyResponse",
-	Rule: "client operation = each client method (reads drained to EOF, listings drained, chunked writer: open / Write small / Write 100 KiB / Size / Close / Commit / Size+ID / Commit again / Write / Cancel / Close, resume with explicit offset and with -1) x ListPageSize in {-5,-1,0,1,2,1000} x chunk hint x a script of 0-8 responses, each the expected answer distorted in one dimension: status from every class (2xx the operation does not expect, 3xx without Location, 4xx, 5xx), one of Location / Range / Content-Range / Docker-Content-Digest / Link (incl. well-formed targets followed by parameters of every shape) / Content-Type / OCI-Chunk-Min-Length absent / empty / malformed / contradictory / huge, body empty / truncated / wrong-shape / garbage / null / 2 MiB, Content-Length unknown / too long / too short; served by a scripted RoundTripper that sets Response.Request and fails every request after the script is exhausted; oracle = no panic (also none when a returned error is printed, unwrapped and asked for its code, detail, status and response body), every individual API call returns within 10 s and issues at most (answers still unconsumed) + 1 requests; non-trivial = a distorted response was actually consumed; distinct = (operation, page size, consumed fault vector)",
+	Rule: "client operation = each client method (reads drained to EOF, listings drained, chunked writer: open / Write small / Write 100 KiB / Size / Close / Commit / Size+ID / Commit again / Write / Cancel / Close, resume with explicit offset and with -1) x ListPageSize in {-5,-1,0,1,2,1000} x chunk hint x a script of 0-8 responses, each the expected answer distorted in one dimension: status from every class (2xx the operation does not expect, 3xx without Location, 4xx, 5xx), one of Location / Range / Content-Range / Docker-Content-Digest / Link (incl. well-formed targets followed by parameters of every shape) / Content-Type / OCI-Chunk-Min-Length absent / empty / malformed / contradictory / huge, body empty / truncated / wrong-shape / garbage / null / 2 MiB, Content-Length unknown / too long / too short; served by a scripted RoundTripper that sets Response.Request and fails every request after the script is exhausted; oracle = no panic (also none when a returned error is printed, unwrapped and asked for its code, detail, status and response body), every individual API call returns within 10 s, issues at most (answers still unconsumed) + 1 requests, and never sends a request while it holds the unread body of an earlier response of the same call (that hangs under a one-connection-per-host transport); non-trivial = a distorted response was actually consumed; distinct = (operation, page size, consumed fault vector)",
 	Gen:  genScript,
 	Run:  run,
 }
